@@ -1131,7 +1131,7 @@ static void bufr_put_numeric_compressed( BUFR_Message *msg, BUFR_Dataset *dts, B
       if (debug)
          {
          bufr_print_debug( "   " );
-         if (bufr_print_dscptr_value( errmsg, bcv ))
+         if (bufr_snprint_dscptr_value( errmsg, sizeof(errmsg), bcv ))
             bufr_print_debug( errmsg );
          sprintf( errmsg, _n(" -> R0=0x%llx (%d bit) ", " -> R0=0x%llx (%d bits) ", bcv->encoding.nbits), 
                (unsigned long long)imin, bcv->encoding.nbits );
@@ -1169,7 +1169,7 @@ static void bufr_put_numeric_compressed( BUFR_Message *msg, BUFR_Dataset *dts, B
          if (debug)
             {
             bufr_print_debug( "   " );
-            if (bufr_print_dscptr_value( errmsg, bcv ))
+            if (bufr_snprint_dscptr_value( errmsg, sizeof(errmsg), bcv ))
                bufr_print_debug( errmsg );
             sprintf( errmsg, _n(" -> R(%d)=0x%llx (%d bit)\n", " -> R(%d)=0x%llx (%d bits)\n", nbinc), i+1, (unsigned long long)ival, nbinc );
             bufr_print_debug( errmsg );
@@ -1487,7 +1487,7 @@ static void bufr_put_ccitt_compressed(BUFR_Message *msg, BUFR_Dataset *dts, int 
       if (debug)
          {
          bufr_print_debug( " R0=" );
-         if (bufr_print_dscptr_value( errmsg, bcv ))
+         if (bufr_snprint_dscptr_value( errmsg, sizeof(errmsg), bcv ))
             bufr_print_debug( errmsg );
          sprintf( errmsg, _n(" NBINC=0 (%d bit)\n", " NBINC=0 (%d bits)\n", 6), 6 );
          bufr_print_debug( errmsg );
@@ -1502,7 +1502,7 @@ static void bufr_put_ccitt_compressed(BUFR_Message *msg, BUFR_Dataset *dts, int 
       if (debug)
          {
          bufr_print_debug( " R0=" );
-         if (bufr_print_value( errmsg, bv ))
+         if (bufr_snprint_value( errmsg, sizeof(errmsg), bv ))
             bufr_print_debug( errmsg );
          sprintf( errmsg, _n(" NBINC=%d (%d bit)\n", " NBINC=%d (%d bits)\n", 6), bcv->encoding.nbits/8, 6 );
          bufr_print_debug( errmsg );
@@ -1519,7 +1519,7 @@ static void bufr_put_ccitt_compressed(BUFR_Message *msg, BUFR_Dataset *dts, int 
             {
             sprintf( errmsg, "   R(%d)=", i+1 );
             bufr_print_debug( errmsg );
-            if (bufr_print_dscptr_value( errmsg, bcv ))
+            if (bufr_snprint_dscptr_value( errmsg, sizeof(errmsg), bcv ))
                bufr_print_debug( errmsg );
             sprintf( errmsg, _n(" (%d bit)\n", " (%d bits)\n", bcv->encoding.nbits), bcv->encoding.nbits );
             bufr_print_debug( errmsg );
@@ -1637,7 +1637,7 @@ static uint64_t bufr_value2bits( BufrDescriptor *bd )
                   bd->descriptor, bd->encoding.type );
 	 bufr_print_debug( errmsg );
          bufr_print_descriptor( errmsg, bd );
-         if (bufr_print_value( errmsg, bd->value ))
+         if (bufr_snprint_value( errmsg, sizeof(errmsg), bd->value ))
 	    bufr_print_debug( errmsg );
          exit(1);
          }
@@ -2886,7 +2886,7 @@ static int bufr_get_ccitt_compressed
 
    if (debug)
       {
-      if (bufr_print_value( errmsg, cb->value ))
+      if (bufr_snprint_value( errmsg, arr_count(dstrptr), cb->value ))
          bufr_print_debug( errmsg );
       sprintf( errmsg, _n(" NBINC=%d (%d bit)\n", " NBINC=%d (%d bits)\n", 6), nbinc, 6 );
       bufr_print_debug( errmsg );
@@ -2934,7 +2934,7 @@ static int bufr_get_ccitt_compressed
                arr_inc( dstrptr, slen );
                errmsg = arr_get( dstrptr, 0 );
                }
-            if (bufr_print_value( errmsg, cb2->value ))
+            if (bufr_snprint_value( errmsg, arr_count(dstrptr), cb2->value ))
                bufr_print_debug( errmsg );
             bufr_print_debug( "\n" );
             }
@@ -2996,7 +2996,7 @@ static int bufr_get_ieeefp_compressed
    nbinc = bufr_getbits( msg, 6, &errcode );
    if (debug)
       {
-      if (bufr_print_value( errmsg, cb->value ))
+      if (bufr_snprint_value( errmsg, sizeof(errmsg), cb->value ))
          bufr_print_debug( errmsg );
       sprintf( errmsg, _n(" NBINC=%d (%d bit)\n", " NBINC=%d (%d bits)\n", 6), nbinc, 6 );
       bufr_print_debug( errmsg );
@@ -3020,7 +3020,7 @@ static int bufr_get_ieeefp_compressed
          errcode = bufr_get_desc_ieeefp( msg, cb2 );
          if (debug)
             {
-            if (bufr_print_value( errmsg, cb2->value ))
+            if (bufr_snprint_value( errmsg, sizeof(errmsg), cb2->value ))
                bufr_print_debug( errmsg );
             bufr_print_debug( "\n" );
             }
@@ -3120,7 +3120,7 @@ static int bufr_get_numeric_compressed
             {
             sprintf( errmsg, "   R(%d)=", i+1 );
             bufr_print_debug( errmsg );
-            if (bufr_print_dscptr_value( errmsg, cb2 ))
+            if (bufr_snprint_dscptr_value( errmsg, sizeof(errmsg), cb2 ))
                bufr_print_debug( errmsg );
             bufr_print_debug( "\n" );
             }
@@ -3148,7 +3148,7 @@ static int bufr_get_numeric_compressed
             {
             sprintf( errmsg, _n("   R(%d)=%llx(%llx) (%d bit)", " R(%d)=%llx(%llx) (%d bits)", nbinc), i+1, (unsigned long long)ival2, (unsigned long long)ival, nbinc );
             bufr_print_debug( errmsg );
-            if (bufr_print_dscptr_value( errmsg, cb2 ))
+            if (bufr_snprint_dscptr_value( errmsg, sizeof(errmsg), cb2 ))
                bufr_print_debug( errmsg );
             bufr_print_debug( "\n" );
             }
